@@ -158,6 +158,14 @@ func (Engine) Generate(r *core.Rng, property, tier string) *core.Plan {
 	for i := 0; i < n; i++ {
 		g.step()
 	}
+	if property == "C31" || property == "C32" {
+		// the configuration clause: what settings.SetupConfig makes of a local
+		// configuration file (network name spelling, overridden heights, an
+		// overridden frozen list), at a random point of the run
+		for k := r.Range(1, 3); k > 0; k-- {
+			g.p.Add(Step{Op: "conf", Conf: genConf(r)})
+		}
+	}
 	return p
 }
 
